@@ -1278,11 +1278,12 @@ impl<const MIN_ALIGN: usize> Bump<MIN_ALIGN> {
                         // only allocation in this chunk.
                         //
                         // Because this is the only allocation in this chunk,
-                        // we can reset the chunk's bump finger to the start of
-                        // the chunk.
+                        // we can reset the chunk's bump finger to its initial
+                        // position at the end of the chunk (the footer), which
+                        // makes the whole chunk available again.
                         #[cfg(feature = "verif_hooks")]
                         crate::verif_hooks::footer_store(current_footer_p.as_ptr() as *const u8, 3);
-                        current_ptr.set(current_footer_p.as_ref().data);
+                        current_ptr.set(current_footer_p.cast());
                     }
                 }
                 //SAFETY:
@@ -1390,11 +1391,12 @@ impl<const MIN_ALIGN: usize> Bump<MIN_ALIGN> {
                         // only allocation in this chunk.
                         //
                         // Because this is the only allocation in this chunk,
-                        // we can reset the chunk's bump finger to the start of
-                        // the chunk.
+                        // we can reset the chunk's bump finger to its initial
+                        // position at the end of the chunk (the footer), which
+                        // makes the whole chunk available again.
                         #[cfg(feature = "verif_hooks")]
                         crate::verif_hooks::footer_store(current_footer_p.as_ptr() as *const u8, 5);
-                        current_ptr.set(current_footer_p.as_ref().data);
+                        current_ptr.set(current_footer_p.cast());
                     }
                 }
                 //SAFETY:
